@@ -35,6 +35,8 @@ lazy_static! {
 pub(crate) fn exec(var: Variable) -> Variable {
     let element_type = var.as_type().element_type().unwrap();
     let default = Variable::of_type(&element_type).unwrap_or(Variable::Void);
+    #[cfg(feature = "verif")]
+    let _helper = crate::verif::helper_scope();
     let result = ITER
         .exec_with_args(&[var, default])
         .unwrap()
